@@ -161,6 +161,8 @@ def num_eval(t, ops, vals):
     xs = [num_eval(k, ops, vals) for k in kids]
     if xs.count("raise"):
         return "raise"
+    if xs.count("skip"):
+        return "skip"
     names = [ops[i] for i in opix]
     if names[0] in CMP:
         ok = True
@@ -198,17 +200,18 @@ def num_chains(a, b):
 
 
 # ---------------------------------------------------------------- family D: list builtins vs prefix rendering
-LIST_OPS = ["zip", "++", "**", "til", "to", "fold", "scan", "+", ".+", "lazy_zip", "ziplongest", "merge", "replace", "&&&", "***", "equals"]
+LIST_OPS = ["zip", "++", "**", "til", "to", "fold", "scan", "+", ".+", "lazy_zip", "ziplongest", "merge", "replace", "&&&", "***", "equals", "split", "rsplit", "split_re", "rearrange"]
 # every builtin whose try_chain accepts a follower (src/lib.rs): the follower names it merges with
 CHAIN_TABLE = {"zip": {"zip", "with"}, "lazy_zip": {"lazy_zip", "with"}, "ziplongest": {"ziplongest", "with"}, "**": {"**"}, "til": {"by"}, "to": {"by"},
-               "fold": {"from"}, "scan": {"from"}, "merge": {"merge", "with"}, "replace": {"with"}, "&&&": {"&&&"}, "***": {"***"}, "equals": {"equals"}}
+               "fold": {"from"}, "scan": {"from"}, "merge": {"merge", "with"}, "replace": {"with"}, "&&&": {"&&&"}, "***": {"***"}, "equals": {"equals"},
+               "split": {"by"}, "rsplit": {"by"}, "split_re": {"by"}, "rearrange": {"with"}}
 LIST_ALL = LIST_OPS + ["with", "by", "from"]
 # (operands, wrapper): the wrapper applies a chain that builds a function, so that an n-ary merge is told from nested pairs
 OPERAND_PATTERNS = [(["[1, 2]", "[3, 4]", "[5, 6]", "[7, 8]"], "%s"), (["1", "7", "2", "3"], "%s"), (["[1, 2, 3]", "(+)", "10", "[4]"], "%s"),
                     (["[1, 2]", "[3, 4]", "(+)", "[5]"], "%s"), (["1", "9", "3", "(+)"], "%s"), (["[[1], [2]]", "(++)", "[0]", "[9]"], "%s"),
                     (["(_ + 1)", "(_ * 2)", "(_ - 3)", "(_ * 5)"], "(%s)(10)"), (["(_ + 1)", "(_ * 2)", "(_ - 3)", "(_ * 5)"], "(%s)([1, 2, 3])"),
                     (["(_ + 1)", "(_ * 2)", "(_ - 3)", "(_ * 5)"], "(%s)([1, 2])"),
-                    (['"abcab"', '"b"', '"x"', '"a"'], "%s"), (["{1: 2}", "{1: 3}", "(+)", "{1: 1}"], "%s"),
+                    (['"abcab"', '"b"', '"x"', '"a"'], "%s"), (['"a,b,c,d"', '","', "2", "3"], "%s"), (["{1: 2}", "{1: 3}", "(+)", "{1: 1}"], "%s"),
                     (["{1: 2}", "{1: 3}", "{1: 10}", "(+)"], "%s")]     # one key per dict: iteration order of a larger dict is not fixed
 
 
